@@ -67,6 +67,51 @@ def run(ctx):
             else:
                 r1.bad(key, 'counter value is %s without the saturation guard: at the end of the range the counter panics (debug) or wraps (release) instead of holding' % ('incremented' if op == 'Add' else 'decremented'), loc=fn.loc(b))
 
+    # count direction: an increment happens only on the up-count edge, a decrement only on the down-count edge
+    # (the edge flags are the booleans computed from the previous-sample memory PREV_CU / PREV_CD)
+    from ..dep import deps as _deps
+    from ..gates import test_edges as _te, guarded as _guarded
+    for k in sorted(fx.fns):
+        if not k.startswith(FB + 'counters::'):
+            continue
+        fn = F(fx.fns[k])
+        sites = [(b, op) for (b, kind, op, ops) in arith.sites(fn) if kind == 'Overflow' and op in ('Add', 'Sub') and any(o[0] == 'k' and re.match(r'1(_\w+)?$', o[2].strip()) for o in ops)]
+        if not sites:
+            continue
+        up, down = {}, {}
+        for l in list(fn.defs):
+            if fn.local_ty(l) != 'bool':
+                continue
+            d = _deps(fn, ['c', [l, []]])
+            txt = ' '.join(sorted(d.fields)) + ' ' + ' '.join(sorted(d.consts))
+            # `!prev && input` lowers to a switch on one operand that selects between the other operand and `false`:
+            # the dependence on the switched operand is a control dependence of the defining blocks
+            for (db, dk, dv) in fn.defs.get(l, []):
+                for pb in fn.preds.get(db, []):
+                    pt = fn.term(pb)
+                    if pt['k'] == 'switch':
+                        d2 = _deps(fn, pt['d'])
+                        txt += ' ' + ' '.join(sorted(d2.fields)) + ' ' + ' '.join(sorted(d2.consts))
+            cu = bool(re.search(r'prev_cu|PREV_CU', txt))
+            cd = bool(re.search(r'prev_cd|PREV_CD', txt))
+            if cu and not cd:
+                up[l] = ('bool', True)
+            elif cd and not cu:
+                down[l] = ('bool', True)
+        upos = _te(fn, up)[0] if up else set()
+        dpos = _te(fn, down)[0] if down else set()
+        for b, op in sites:
+            r1.saw()
+            key = 'direction|%s|%s' % (k[len(FB):], op)
+            perm = upos if op == 'Add' else dpos
+            if not (up or down):
+                continue        # helper without edge memory (pure arithmetic)
+            if perm and _guarded(fn, b, perm):
+                r1.ok(key, loc=fn.loc(b))
+            else:
+                r1.bad(key, 'the counter is %s on a path that did not establish the rising edge of %s: the count moves in the wrong direction or without an edge' % (
+                    'incremented' if op == 'Add' else 'decremented', 'CU' if op == 'Add' else 'CD'), loc=fn.loc(b))
+
     # ------------------------------------------------------------------ R2
     r2 = ctx.rule('C04.R2', 'instance locality: every state access goes through the call\'s own instance id; no static/global storage', floor=60, floor_what='state access sites')
     for k in sorted(fx.fns):
